@@ -626,6 +626,17 @@ class Interp:
                 return v
             if isinstance(v, TermV):
                 return TermV(('transmute', v.t, rv['ty']))
+            # newtype wrappers around a pointer (NonNull<T>, Unique<T>): same bits as the single field
+            x = v
+            for _ in range(4):
+                if isinstance(x, AdtV) and x.fields is not None and not isinstance(x.tid, tuple):
+                    nz = [f for f in x.fields if not (isinstance(f, AdtV) and f.fields is not None and len(f.fields) == 0)]
+                    if len(nz) == 1:
+                        x = nz[0]
+                        continue
+                break
+            if isinstance(x, (PtrV, SliceV, RefV)) and to['kind'] in ('ptr', 'ref'):
+                return x
             return self.fresh_of_type(st, rv['ty'], 'tm')
         if ck == 'PointerWithExposedProvenance':
             return TopV(rv['ty'])
@@ -1177,13 +1188,17 @@ class Interp:
         result type satisfying the type invariants (plus the declared summary, which the callee's
         own root analysis must prove); everything reachable through `&mut` arguments is havocked."""
         self.cuts[key] = self.cuts.get(key, 0) + 1
+        from . import mm
+        mm.check_call_pre(self, fr, st, callee, args, t['loc'])
         for i, a in enumerate(args):
             if isinstance(a, RefV) and i < callee.arg_count:
                 ty = self.P.types[callee.locals[i + 1]]
                 if ty['kind'] == 'ref' and ty['mut']:
                     self.store_lv(fr, st, a.lv, self.fresh_of_type(st, ty['to'], 'cut'), ty['to'])
         ret = self.fresh_of_type(st, callee.locals[0], 'cut')
-        outs = self.models.apply_summary(self, fr, st, t, key, callee, args, ret)
+        outs = []
+        for s2, r2 in mm.assume_call_post(self, fr, st, callee, args, ret):
+            outs += self.models.apply_summary(self, fr, s2, t, key, callee, args, r2)
         return outs
 
     def adapt_args(self, callee, args, st):
